@@ -159,7 +159,7 @@ class FloorTracer:
     def proj_dev(self, d, o):
         k = d['kind']
         out = {'kind': k, 'blocked': bool(o.block_input), 'value': num(o.value), 'nvh': len(o.value_history)}
-        if k in ('gate', 'gpath', 'junction'):
+        if k in ('gate', 'gpath', 'junction', 'ginput', 'goutput'):
             return out
         out.update(inp=self.pid(o._part), out=self.pid(o._output), wds=bool(o._waiting_for_downstream_space),
                    wsince=tk(o.waiting_for_part_start_time), off=tk(o._next_cycle_time_offset, 'offset'))
@@ -233,8 +233,11 @@ class FloorTracer:
         for d in self.cfg['devs']:
             o = self.m.dev[d['id']]
             st['dev'].append(self.proj_dev(d, o))
-            st['down'].append([getattr(x, '_vid', 0) for x in o.downstream])
-            st['ups'].append([getattr(x, '_vid', 0) for x in o.upstream])
+            st['down'].append([getattr(x, '_vid', 0) for x in o._downstream])
+            if d['kind'] == 'ginput':
+                st['ups'].append([getattr(u, '_vid', 0) for gp in o._group._group_paths for u in gp._upstream])
+            else:
+                st['ups'].append([getattr(x, '_vid', 0) for x in o._upstream])
         st['nleaf'] = self.nleaf
         st['inited'] = bool(self.m.system._simulation_is_initialized)
         st['part'] = [self.proj_part(p) for p in self.parts]
